@@ -8,6 +8,7 @@
  *   M <module> <id> <method> <args>
  * A destroy of something that is not a live object of this module is logged as "X <module> bad-destroy".
  */
+#include <atomic>
 #include <blocc/plugin.h>
 #include <blocc/exception_runtime.h>
 #include <blocc/collection.h>
@@ -37,7 +38,8 @@ struct VObj
   char tag[8];
 };
 
-static int g_next_id = 1;
+/* clones of a context run the module on several threads at once */
+static std::atomic<int> g_next_id(1);
 
 static void vlog(const std::string& line)
 {
